@@ -11,9 +11,20 @@ def gen_group(rng, nq):
     null_p = rng.choice([0.0, 0.0, 0.3, 0.5])
     a = relgen.gen_table(rng, "ta", types, null_p=null_p)
     b = relgen.gen_table(rng, "tb", types, null_p=null_p)
+    # mixed integer widths: the same column INTEGER on one side and BIGINT on the other, the BIGINT side holding values that do
+    # not fit 32 bits (UNION used to de-duplicate them at 32 bits: fix f5f2dbc, found by C03's thorough tier)
+    if rng.random() < 0.3 and any(t in ("i64", "i32") for t in types):
+        btypes = [("i64" if t == "i32" else "i32" if t == "i64" and rng.random() < 0.5 else t) for t in types]
+        wide, wt = (b, btypes) if rng.random() < 0.5 else (a, types)
+        b["types"] = btypes
+        for i, t in enumerate(wt):
+            if t == "i64" and wide["rows"]:
+                for r in rng.sample(wide["rows"], min(len(wide["rows"]), rng.randint(1, 2))):
+                    r[i] = rng.choice([2147483651, -2147483650, 4294967297, 2147483648])
     # make overlap likely
     for r in a["rows"][: rng.randint(0, 3)]:
-        b["rows"].insert(rng.randint(0, len(b["rows"])), list(r))
+        if all(v is None or not isinstance(v, int) or isinstance(v, bool) or t != "i32" or -2**31 <= v < 2**31 for v, t in zip(r, b["types"])):
+            b["rows"].insert(rng.randint(0, len(b["rows"])), list(r))
     if b["batch_sizes"] and sum(b["batch_sizes"]) > len(b["rows"]):
         b["batch_sizes"] = None
     qs = []
